@@ -22,6 +22,7 @@ from __future__ import annotations
 
 import dataclasses
 import sys
+import types
 import warnings
 from typing import Callable, MutableSet, TypeVar, overload
 
@@ -134,12 +135,53 @@ def slotted(  # noqa: C901
             new_cls = cls.__class__(cls.__name__, cls.__bases__, cls_dict)
             new_cls.__qualname__ = cls.__qualname__
             new_cls.__module__ = cls.__module__
+            # Methods which hold the class in a closure cell (`super()` without arguments, the
+            #   `__setattr__` / `__delattr__` that `dataclass(frozen=True)` generates) hold the old one.
+            for name, member in cls_dict.items():
+                rebound = _rebind(member, cls, new_cls)
+                if rebound is not member:
+                    type.__setattr__(new_cls, name, rebound)
             return new_cls
         finally:
             # Release the guard however we leave, or a failed decoration poisons the next one.
             _stack.discard(key)
 
     return wrap if _cls is None else wrap(_cls)
+
+
+def _rebind(member, old: type, new: type):
+    """`member` itself, or a copy of it in which the closure cells that held `old` hold `new`.
+
+    (A copy: the original class keeps working with the original function.)
+    """
+    if isinstance(member, (classmethod, staticmethod)):
+        func = _rebind(member.__func__, old, new)
+        return member if func is member.__func__ else member.__class__(func)
+    if isinstance(member, property):
+        parts = [f and _rebind(f, old, new) for f in (member.fget, member.fset, member.fdel)]
+        same = all(a is b for a, b in zip(parts, (member.fget, member.fset, member.fdel)))
+        return member if same else property(*parts, doc=member.__doc__)
+    if not isinstance(member, types.FunctionType) or not member.__closure__:
+        return member
+    cells = []
+    for cell in member.__closure__:
+        try:
+            held = cell.cell_contents
+        except ValueError:  # an empty cell
+            held = None
+        cells.append(types.CellType(new) if held is old else cell)
+    if all(a is b for a, b in zip(cells, member.__closure__)):
+        return member
+    func = types.FunctionType(
+        member.__code__, member.__globals__, member.__name__, member.__defaults__, tuple(cells)
+    )
+    func.__kwdefaults__ = member.__kwdefaults__
+    func.__qualname__ = member.__qualname__
+    func.__module__ = member.__module__
+    func.__doc__ = member.__doc__
+    func.__annotations__ = member.__annotations__
+    func.__dict__.update(member.__dict__)
+    return func
 
 
 _stack: MutableSet[type] = set()
